@@ -187,10 +187,10 @@ def run(prog: Program, rep, thorough: bool) -> None:
             W0 = _vec(ev, leaf.state, e_.get(F.P)), _vec(ev, leaf.state, e_.get(F.V))
             same = W0[0] is not None and W0[1] is not None and all(a_.equals(A.sym(n_)) for a_, n_ in zip(W0[0] + W0[1], ('x', 'y', 'z', 'vx', 'vy', 'vz'))) \
                 and isinstance(e_.get(F.t), Scalar) and e_[F.t].rf.equals(A.sym('t'))
-            if not same:
-                problems.setdefault('exit', 'the loop is left by `break` after the state has been advanced')
-            continue
-        if leaf.kind not in ('fall', 'continue'):
+            if same:
+                continue
+            # left after a step (a stop condition met): the step taken is judged like any other
+        if leaf.kind not in ('fall', 'continue', 'break'):
             problems.setdefault('exit', f'the loop body leaves by `{leaf.kind}`')
             continue
         e = leaf.state.env
